@@ -145,6 +145,16 @@ def vadd(a, b):
     return Val(s, None)
 
 
+def vstep(a, d):
+    """a + d for d = +1 / -1 on integers: positive means >= 1, so one step down from positive cannot pass zero"""
+    s = 0
+    if d > 0:
+        s = (N | Z if a.signs & N else 0) | (P if a.signs & (Z | P) else 0)
+    else:
+        s = (Z | P if a.signs & P else 0) | (N if a.signs & (Z | N) else 0)
+    return Val(s, None)
+
+
 def _strip(e):
     while isinstance(e, dict) and e.get("k") in ("cast", "paren"):
         e = e["e"]
@@ -173,6 +183,7 @@ class Fn:
         self.pidx = {p["id"]: i for i, p in enumerate(self.params)}
         # local object variables and local object-pointer bindings (flow-insensitive; a pointer with more than one definition is unknown)
         self.local_obj = {}          # var id -> struct
+        self.reassigned = set()      # object-pointer parameters that the function itself redirects (MPZ_SRCPTR_SWAP ...): not followed
         self.bind = collections.defaultdict(list)
         for b in fn["blocks"]:
             for el in b["elems"]:
@@ -192,6 +203,9 @@ class Fn:
             l = _strip(n["l"])
             if isinstance(l, dict) and l.get("k") == "var" and struct_of(l.get("ct")) and "*" in l.get("ct", "") and l["id"] not in self.pidx:
                 self.bind[l["id"]].append(n["r"])
+            elif isinstance(l, dict) and l.get("k") == "var" and struct_of(l.get("ct")) and "*" in l.get("ct", "") and l["id"] in self.pidx:
+                self.reassigned.add(l["id"])
+                self.bind[l["id"]].append(n["r"])
 
     # ---- objects ------------------------------------------------------------------------------------------------------------
     def obj(self, e, depth=0):
@@ -208,6 +222,8 @@ class Fn:
             s = struct_of(e.get("ct"))
             if s != "__mpz_struct":
                 return None
+            if e["id"] in self.reassigned:
+                return self.may_objs(e["id"])
             if e["id"] in self.pidx:
                 return self.canon(("p", e["id"]))
             if e["id"] in self.local_obj:
@@ -222,6 +238,32 @@ class Fn:
                 return self.canon((q[0] + "f", q[1], e["field"]))
         return None
 
+    def may_objs(self, vid):
+        """a redirected object-pointer parameter names its own object or one of those it is ever assigned (MPZ_PTR_SWAP): ('may', set), or
+        None when some assignment is not another object we can name"""
+        seen, todo, out = set(), [vid], set()
+        while todo:
+            v = todo.pop()
+            if v in seen:
+                continue
+            seen.add(v)
+            if v in self.pidx:
+                out.add(self.canon(("p", v)))
+            elif v in self.local_obj:
+                out.add(("l", v))
+                continue
+            for r in self.bind.get(v, []):
+                r = _strip(r)
+                while isinstance(r, dict) and r.get("k") == "unop" and r["op"] == "&":
+                    r = _strip(r["e"])
+                while isinstance(r, dict) and r.get("k") == "index":
+                    r = _strip(r["base"])
+                if isinstance(r, dict) and r.get("k") == "var" and struct_of(r.get("ct")) == "__mpz_struct":
+                    todo.append(r["id"])
+                else:
+                    return None
+        return ("may", frozenset(out))
+
     def qobj(self, e, depth=0):
         e = _strip(e)
         if not isinstance(e, dict) or depth > 4:
@@ -231,7 +273,7 @@ class Fn:
             return self.qobj(e["e"], depth)
         if k == "index":
             return self.qobj(e["base"], depth)
-        if k == "var" and struct_of(e.get("ct")) == "__mpq_struct":
+        if k == "var" and struct_of(e.get("ct")) == "__mpq_struct" and e["id"] not in self.reassigned:
             if e["id"] in self.pidx:
                 return ("p", e["id"])
             if e["id"] in self.local_obj:
@@ -256,6 +298,11 @@ class Fn:
 
     # ---- values -------------------------------------------------------------------------------------------------------------
     def get(self, st, key):
+        if key[0] == "may":
+            out = None
+            for c in key[1]:
+                out = vjoin(out, st.get(c, UNK))
+            return Val(out.signs, None) if out is not None else UNK
         if key in st:
             return st[key]
         return UNK
@@ -272,7 +319,7 @@ class Fn:
             return ("v", e["id"])
         if e.get("k") == "member" and e["field"] == "_mp_size":
             o = self.obj(e["base"])
-            if o is not None:
+            if o is not None and o[0] != "may":
                 return o
         return None
 
@@ -296,6 +343,10 @@ class Fn:
                 return NONNEG
             return v
         if k == "member":
+            if e["field"] == "_mp_size":
+                o = self.obj(e["base"])
+                if o is not None:
+                    return self.get(st, o)                    # through a redirected pointer: what any of its objects holds
             return NONNEG if e["field"] in ("_mp_alloc", "_mp_prec") or is_unsigned(e.get("t")) else UNK
         if k == "unop":
             if e["op"] == "-":
@@ -312,15 +363,32 @@ class Fn:
                 return self.eval(e["r"], st)
             if op in ("==", "!=", "<", ">", "<=", ">=", "&&", "||"):
                 return NONNEG
-            if op == "+":
-                return vadd(self.eval(e["l"], st), self.eval(e["r"], st))
-            if op == "-":
-                return vadd(self.eval(e["l"], st), vneg(self.eval(e["r"], st)))
+            if op in ("+", "-"):
+                r_ = _strip(e["r"])
+                l_ = _strip(e["l"])
+                if isinstance(r_, dict) and r_.get("k") == "int" and r_["v"] in (1, -1):
+                    return vstep(self.eval(e["l"], st), r_["v"] if op == "+" else -r_["v"])
+                if op == "+" and isinstance(l_, dict) and l_.get("k") == "int" and l_["v"] in (1, -1):
+                    return vstep(self.eval(e["r"], st), l_["v"])
+                r = self.eval(e["r"], st)
+                return vadd(self.eval(e["l"], st), r if op == "+" else vneg(r))
+            if op in ("/", "%", ">>", "&"):
+                l, r = self.eval(e["l"], st), self.eval(e["r"], st)
+                if op == "&" and (l.signs & N == 0 or r.signs & N == 0):
+                    return NONNEG
+                if l.signs & N == 0 and r.signs & N == 0:
+                    return NONNEG
+                return UNK
             if op == "*":
                 return vmul(self.eval(e["l"], st), self.eval(e["r"], st))
             if op == ",":
                 return self.eval(e["r"], st)
         if k == "cond":
+            c_ = sa.strip_expect(e["c"])
+            if isinstance(c_, dict) and c_.get("k") == "binop" and c_["op"] in (">=", ">") and _strip(c_["r"]).get("k") == "int" \
+                    and _strip(c_["r"])["v"] == 0 and _strip(e["b"]).get("k") == "unop" and _strip(e["b"])["op"] == "-" \
+                    and _strip(_strip(e["b"])["e"]) == _strip(e["a"]) == _strip(c_["l"]):
+                return vabs(self.eval(e["a"], st))            # ABS (x), whatever x is
             out = None
             understood = True
             for arm, truth in ((e["a"], True), (e["b"], False)):
@@ -462,6 +530,10 @@ class Fn:
     def set_obj(self, st, o, v):
         if o is None:
             self.havoc_objects(st)
+        elif o[0] == "may":
+            for c in o[1]:                     # one of them is written: each may now hold the new value or still its own
+                j = vjoin(st.get(c, UNK), v)
+                st[c] = Val(j.signs, None)
         else:
             st[o] = v.used()
 
@@ -523,12 +595,12 @@ class Fn:
             st[t] = v.used()
             return
         if l.get("k") == "member" and l["field"] == "_mp_size":
-            self.havoc_objects(st)            # size store through a pointer we cannot name
+            self.set_obj(st, self.obj(l["base"]), v)            # through a redirected pointer (weak update), or one we cannot name (everything)
         elif l.get("k") == "unop" and l["op"] == "*" and struct_of(_strip(l["e"]).get("ct")):
             o = self.obj(l["e"])
             q = self.qobj(l["e"])
             if o is not None:
-                st[o] = UNK
+                self.set_obj(st, o, UNK)
             elif q is not None:
                 for f in self.q_fields(q):
                     st[f] = UNK
@@ -542,6 +614,9 @@ class Fn:
             self.do_call(e, st)
         elif k == "binop" and e["op"] == "=":
             self.assign(e["l"], self.eval(e["r"], st), st)
+        elif k == "binop" and e["op"] in ("+=", "-=") and _strip(e["r"]).get("k") == "int" and _strip(e["r"])["v"] in (1, -1):
+            d = _strip(e["r"])["v"]
+            self.assign(e["l"], vstep(self.eval(e["l"], st), d if e["op"] == "+=" else -d), st)
         elif k == "binop" and e["op"] in ("+=", "-=", "*="):
             l = self.eval(e["l"], st)
             r = self.eval(e["r"], st)
@@ -551,12 +626,13 @@ class Fn:
             self.assign(e["l"], NONNEG if is_unsigned(_strip(e["l"]).get("ct")) else UNK, st)
         elif k == "unop" and e["op"] in ("post++", "pre++", "post--", "pre--"):
             v = self.eval(e["e"], st)
-            one = Val(P, frozenset()) if "++" in e["op"] else Val(N, frozenset())
-            self.assign(e["e"], vadd(v, one), st)
+            self.assign(e["e"], vstep(v, 1 if "++" in e["op"] else -1), st)
         elif k == "decl":
             for d in e["decls"]:
                 if "init" in d:
                     self.assign(d["var"], self.eval(d["init"], st), st)
+        elif k == "return" and isinstance(e.get("e"), dict):
+            st[("ret",)] = self.eval(e["e"], st)
 
     # ---- fixpoint -----------------------------------------------------------------------------------------------------------
     def ipdoms(self):
@@ -746,18 +822,32 @@ def h_swap(F, st, o, a):
     if o[0] is None or o[1] is None:
         F.havoc_objects(st)
     else:
-        st[o[0]], st[o[1]] = y, x
+        F.set_obj(st, o[0], y)
+        F.set_obj(st, o[1], x)
 
 
 def h_nothing(F, st, o, a):
     pass
 
 
+def is_null(a):
+    a = _strip(a)
+    return isinstance(a, dict) and a.get("k") == "int" and a["v"] == 0
+
+
+def h_gcdext(F, st, o, a):
+    """g = gcd (a, b) >= 0; the cofactors take either sign (and zero) depending on the operands - all three are attained"""
+    F.set_obj(st, o[0], NONNEG)
+    for i in (1, 2):
+        if not is_null(a[i]):
+            F.set_obj(st, o[i], Val(TOP, frozenset(["a cofactor computed by mpz_gcdext"])))
+
+
 def h_nonneg(F, st, o, a):
     F.set_obj(st, o[0], NONNEG)
 
 
-MPZ = {"__gmpz_set": (2, h_copy), "__gmpz_init_set": (2, h_copy), "__gmpz_neg": (2, h_neg), "__gmpz_abs": (2, h_abs),
+MPZ = {"__gmpz_gcdext": (5, h_gcdext), "__gmpz_set": (2, h_copy), "__gmpz_init_set": (2, h_copy), "__gmpz_neg": (2, h_neg), "__gmpz_abs": (2, h_abs),
        "__gmpz_mul": (3, h_mul), "__gmpz_mul_ui": (3, h_mul_scalar), "__gmpz_mul_si": (3, h_mul_scalar), "__gmpz_mul_2exp": (2, h_copy),
        "__gmpz_gcd": (3, h_gcd), "__gmpz_divexact_gcd": (3, h_divexact_gcd), "__gmpz_divexact": (3, h_divexact),
        "__gmpz_add": (3, h_add), "__gmpz_sub": (3, h_sub), "__gmpz_set_ui": (2, h_set_scalar), "__gmpz_set_si": (2, h_set_scalar),
@@ -810,7 +900,7 @@ def scenarios(F, out_id):
         yield "%s is %s" % (names[out_id], " and ".join(names[g] for g in grp)), u
 
 
-def judge(fn, out_idx, field, want, summaries, canonicalize=False):
+def judge(fn, out_idx, field, want, summaries, canonicalize=False, when_returns_nonzero=False):
     """-> (verdict, detail) for 'at every exit the size of <output>[.field] has a sign inside want'"""
     F = Fn(fn, summaries)
     outp = fn["params"][out_idx]
@@ -827,6 +917,8 @@ def judge(fn, out_idx, field, want, summaries, canonicalize=False):
             v = F.get(st, key)
             if v.signs & ~want == 0:
                 continue
+            if when_returns_nonzero and F.get(st, ("ret",)).signs == Z:
+                continue                      # "no result" exit: the output is not defined there
             if v.exact:
                 bad = v.signs & ~want
                 return "refuted", dict(line=line, scenario=label, signs=sname(v.signs), bad=sname(bad), sources=sorted(v.tags))
@@ -904,3 +996,62 @@ def run(prop="C12", tier="quick"):
     res["notes"].append("fixtures: 3 positive refuted, 4 negative proved, 1 undecided by design (a square)")
     res["exhaustive"] = True
     return res
+
+
+# ---- non-negative integer results (C07, C08, C09) ----------------------------------------------------------------------------
+# property -> [(file, function, output parameter index, documented sign set, what the manual says)]
+NONNEG_RESULTS = {
+    "C07": [("mpz/gcd.c", "__gmpz_gcd", 0, Z | P, "the greatest common divisor is non-negative"),
+            ("mpz/gcdext.c", "__gmpz_gcdext", 0, Z | P, "the greatest common divisor is non-negative"),
+            ("mpz/lcm.c", "__gmpz_lcm", 0, Z | P, "the least common multiple is non-negative"),
+            ("mpz/lcm_ui.c", "__gmpz_lcm_ui", 0, Z | P, "the least common multiple is non-negative"),
+            ("mpz/invert.c", "__gmpz_invert", 0, Z | P, "the inverse lies in [0, |m|) (exits that return non-zero)")],
+    "C08": [("mpz/powm.c", "__gmpz_powm", 0, Z | P, "the residue lies in [0, |mod|)"),
+            ("mpz/powm_ui.c", "__gmpz_powm_ui", 0, Z | P, "the residue lies in [0, |mod|)"),
+            ("mpz/ui_pow_ui.c", "__gmpz_ui_pow_ui", 0, Z | P, "a power of an unsigned base is non-negative")],
+    "C09": [("mpz/sqrt.c", "__gmpz_sqrt", 0, Z | P, "the square root is non-negative"),
+            ("mpz/sqrtrem.c", "__gmpz_sqrtrem", 0, Z | P, "the square root is non-negative"),
+            ("mpz/sqrtrem.c", "__gmpz_sqrtrem", 1, Z | P, "the remainder u - s^2 is non-negative")],
+}
+
+
+def run_nonneg(prop, tier="quick"):
+    res = dict(findings=[], stats=collections.Counter(), samples=[], notes=[])
+    cfg = sa.cfg_built()
+    cfg = sa.Config("built-sign", units=cfg.units, flags=list(cfg.flags), extra_files=[FIXTURE])
+    ex = sa.export(cfg)
+    sa.check_errors(ex)
+    byname = {}
+    for path, fn in ex.functions():
+        byname[(relpath(path), fn["name"])] = (path, fn)
+    for rel, name, idx, want, text in NONNEG_RESULTS[prop]:
+        if (rel, name) not in byname:
+            raise AnalysisBroken("R-SIGN: anchor %s in %s not found" % (name, rel))
+        path, fn = byname[(rel, name)]
+        if idx >= len(fn["params"]) or struct_of(fn["params"][idx].get("ct")) != "__mpz_struct" or fn["params"][idx].get("pc"):
+            raise AnalysisBroken("R-SIGN: parameter %d of %s is no longer an integer result" % (idx, name))
+        verdict, detail = judge(fn, idx, None, want, {}, when_returns_nonzero="non-zero" in text)
+        oname = fn["params"][idx]["name"]
+        res["stats"]["obligations"] += 1
+        res["stats"][verdict] += 1
+        res["samples"].append(dict(rule="R-SIGN", function=name, file=rel, output=oname, documented=sname(want), verdict=verdict, detail=detail))
+        if verdict == "refuted":
+            res["findings"].append(Finding(
+                prop, "R-SIGN", path, detail["line"], name, "result-sign:%s:%s" % (oname, detail["bad"].replace(" ", "-")),
+                "%s can return at line %d with %s %s (scenario: %s; the sign comes from %s, which the caller chooses freely), but %s"
+                % (name, detail["line"], oname, detail["bad"], detail["scenario"], ", ".join(detail["sources"]) or "constants", text)))
+    st = res["stats"]
+    res["stats"] = dict(st)
+    res["obligations"] = st["obligations"]
+    res["undecided"] = st.get("undecided", 0)
+    res["exhaustive"] = True
+    return res
+
+
+def run_c07(prop="C07", tier="quick"):
+    r = run_nonneg("C07", tier)
+    st = r["stats"]
+    if st.get("proved", 0) < 2:
+        raise AnalysisBroken("R-SIGN.c07: only %d of the non-negative results proved (floor 2; today 3): the sign algebra no longer understands the tree"
+                             % st.get("proved", 0))
+    return r
